@@ -196,4 +196,64 @@ EXTRA = [
         with self._readwrite() as fh:
             x, y = self._rel_tile_coord(tile.coord)
             self._update_tile_offset(fh, x, y, 0, 0)""", 'mutation moved into a private helper whose only call site is under the lock'),
+    # ---------------------------------------------------------------- C06
+    M('M-C06b-no-excl', 'mapproxy/util/fs.py', "fd = os.open(path_tmp, os.O_EXCL | os.O_CREAT | os.O_WRONLY, 0o664)",
+      "fd = os.open(path_tmp, os.O_CREAT | os.O_WRONLY, 0o664)", 'C06.b'),
+    M('M-C06b-swallow-oserror', 'mapproxy/util/fs.py', """            except OSError:
+                pass
+            raise ex""", """            except OSError:
+                pass""", 'C06.b'),
+    M('M-C06b-temp-is-final', 'mapproxy/util/fs.py', "path_tmp = filename + '.tmp-' + str(random.randint(0, 99999999))",
+      "path_tmp = filename", 'C06.b'),
+    M('M-C06b-rename-direction', 'mapproxy/util/fs.py', "os.rename(path_tmp, filename)", "os.rename(filename, path_tmp)", 'C06.b'),
+    E('E-C06b-replace', 'mapproxy/util/fs.py', "os.rename(path_tmp, filename)", "os.replace(path_tmp, filename)",
+      'os.replace is a synonym'),
+    E('E-C06b-close-explicit', 'mapproxy/util/fs.py', """            with os.fdopen(fd, 'wb') as f:
+                f.write(data)
+            os.rename(path_tmp, filename)""", """            f = os.fdopen(fd, 'wb')
+            try:
+                f.write(data)
+            finally:
+                f.close()
+            os.rename(path_tmp, filename)""", 'try/finally close instead of with'),
+    M('M-C06d-v1-load-no-zero-check', 'mapproxy/cache/compact.py', """                    offset = idx.tile_offset(x, y)
+                    if offset == 0:
+                        missing = True
+                        continue
+
+                    data = bundle.read_tile(offset)""", """                    offset = idx.tile_offset(x, y)
+
+                    data = bundle.read_tile(offset)""", 'C06.d'),
+    E('E-C06d-not-offset', 'mapproxy/cache/compact.py', """                    offset = idx.tile_offset(x, y)
+                    if offset == 0:
+                        missing = True
+                        continue
+
+                    data = bundle.read_tile(offset)""", """                    offset = idx.tile_offset(x, y)
+                    if not offset:
+                        missing = True
+                        continue
+
+                    data = bundle.read_tile(offset)""", 'truthiness form of the zero test'),
+    M('M-C06d-v2-load-no-size-check', 'mapproxy/cache/compact.py', """        offset, size = self._tile_offset_size(fh, x, y)
+        if not size:
+            return False
+
+        fh.seek(offset)""", """        offset, size = self._tile_offset_size(fh, x, y)
+
+        fh.seek(offset)""", 'C06.d'),
+    M('M-C06a-truncating-readwrite', 'mapproxy/cache/compact.py', """        self._init_index()
+        with open(self.filename, 'r+b') as fh:
+            yield fh""", """        self._init_index()
+        with open(self.filename, 'w+b') as fh:
+            yield fh""", 'C06.a'),
+    M('M-C06e-legend-direct', 'mapproxy/cache/legend.py', "write_atomic(legend.location, data.read())",
+      "open(legend.location, 'wb').write(data.read())", 'C06.a|C06.e'),
+    M('M-C06c-v1-size-after-data', 'mapproxy/cache/compact.py', """        self._fh.write(struct.pack('<L', size))
+        self._fh.write(data)
+
+        # update header""", """        self._fh.write(data)
+        self._fh.write(struct.pack('<L', size))
+
+        # update header""", 'C06.c'),
 ]
